@@ -106,7 +106,16 @@ func (m *c04Mon) after(h *H, s *step) {
 		if first, done := m.exchanged[key]; done {
 			c.Violation("second-exchange-for-consumed-login", "step #%d: second code exchange for the login of session %s that was already redeemed at step #%d", s.N, short(sid, 12), first)
 		}
-		if tc.Accepted && tc.Status == 200 && s.R.IsRedirect() && !w.IsLoginRedirect(s.R) {
+		// The exchange succeeded if the provider accepted it and answered; from then on the login state counts as
+		// consumed - unless a fault was injected into the very call that consumes it (then it may legitimately survive).
+		clearFaulted := false
+		for _, sc := range s.Store {
+			if sc.Op == "ClearAuthorizationState" && sc.Fault != "" {
+				clearFaulted = true
+			}
+		}
+		bound := tc.IDSigOK && tc.IDAudOK && tc.IDNonceOK
+		if tc.Accepted && tc.Status == 200 && tc.Dropped == "" && bound && !clearFaulted {
 			m.exchanged[key] = s.N
 		}
 	}
@@ -143,16 +152,23 @@ func c04Prop(c *sim.Case) {
 	ho := genHistOpts(c)
 	ho.o.ClientID = sim.PickStr(c, "clientid", "client-1", "cl ient+&=%", "a/b?c#d", "idé")
 	ho.o.ClientSecret = sim.PickStr(c, "secret", "ZqSECRET-s3cr3t", "p@ss:w/ord+&=%", "sp ace", ":::")
+	if sim.Weighted(c, "callback-port", 3, 1) == 1 {
+		ho.o.CallbackURI = "https://app.test:443/cb" // browsers leave the default port out of Host
+	}
 	ops := genOps(c, c04Profile, 40)
-	c.Logf("world: %v client=%q secret=%q", ho, ho.o.ClientID, ho.o.ClientSecret)
-	logOps(c, ops)
-	m := &c04Mon{exchanged: map[string]int{}}
-	h := ho.build(c, m)
-	h.bs = append(h.bs, h.w.NewBrowser("c"))
-	h.lastLoc, h.pending, h.lastTgt = append(h.lastLoc, ""), append(h.pending, ""), append(h.lastTgt, "")
-	defer h.w.Close()
-	for i := range ops {
-		h.exec(&ops[i])
+	c.Logf("world: %v client=%q secret=%q callback=%q", ho, ho.o.ClientID, ho.o.ClientSecret, ho.o.CallbackURI)
+	var m *c04Mon
+	maxFaults := 0
+	if sim.Weighted(c, "with-faults", 2, 1) == 1 {
+		maxFaults = 1
+	}
+	h1, h2 := runWithFaults(c, ho, ops, func() []monitor {
+		m = &c04Mon{exchanged: map[string]int{}}
+		return []monitor{m}
+	}, maxFaults)
+	h := h1
+	if h2 != nil {
+		h = h2
 	}
 	if m.overlap {
 		c.Class("overlapping-logins")
